@@ -2,7 +2,8 @@ from contracts.workspace_io import IoCall, UpdateAttributeGuard, FetchActiveWork
 from contracts.sessions import ReadOnlyHistories
 from contracts.tree import OpenMode
 from contracts.reader import LoadStoredRoot
-CONTRACTS = [IoCall, UpdateAttributeGuard, FetchActiveWorkspace, OpenMode, LoadStoredRoot, ReadOnlyHistories]
+from contracts.removal import ObjectRemoveChildren, ContainerRemoveChildren
+CONTRACTS = [IoCall, UpdateAttributeGuard, FetchActiveWorkspace, OpenMode, LoadStoredRoot, ObjectRemoveChildren, ContainerRemoveChildren, ReadOnlyHistories]
 EXTRA_CHECKS = [structural_scan]
 
 MANIFEST = {
